@@ -155,6 +155,29 @@ def rule_g1(ctx, F):
             ctx.bad("G1", "states_conflict:every-consumed-entry-is-vetted", "states_conflict: %s at %s — two states could be merged although an entry of one was never compared" % (v.msg, fn.loc(v.pt)),
                     {"path": s.render_path(v.path)[-8:]})
         text_gate(ctx, "G1", fn, const_ret_points(fn, 0), [("no-conflict only when both entry lists are exhausted", [((" < ",), False)])], accept_desc="`return false`")
+        adv_set, ret0 = set(adv), set(const_ret_points(fn, 0))
+
+        class BothExhausted(Monitor):
+            """`return false` needs the bound tests of *both* cursors to have failed since the last advance."""
+            def elem(self, m, pt, e, s):
+                if pt in adv_set:
+                    return frozenset()
+                if pt in ret0 and len(m) < 2:
+                    return Viol("`no conflict` is returned after only %d of the two entry lists was found exhausted — the unmatched tail of the longer list is never checked against the other state" % len(m), pt)
+                return m
+
+            def edge(self, m, bid, edge, cond, truth, s):
+                if cond is not None and truth is not None:
+                    txt, t = cond_text(fn, cond, truth)
+                    if " < " in txt and not t:
+                        return m | {txt}
+                return m
+        srch = Search(fn, BothExhausted(), budget=2000000)
+        v = srch.run(frozenset())
+        if v is None:
+            ctx.ok("G1", "states_conflict:both-lists-exhausted", "`no conflict` is returned only after both cursors failed their bound test (%d states)" % srch.states)
+        else:
+            ctx.bad("G1", "states_conflict:both-lists-exhausted", "states_conflict: %s (%s)" % (v.msg, fn.loc(v.pt)), {"path": srch.render_path(v.path)[-6:]})
         rt = const_ret_points(fn, 1)
         ctx.floor("`return true` sites in states_conflict", len(rt), 3)
     fn = find_fn(ctx, F, "Minimizer::token_conflicts", "G1")
